@@ -645,6 +645,33 @@ def r17_14(ctx):
     ctx.floor("R17.14", n, 1, "untagged LIST/LSUB lines with the name in constant text")
 
 
+def r17_15(ctx):
+    """RENAME INBOX moves the messages one by one into the new mailbox.  Flags travel with them: for every sequence the old
+    key is in, the key the message got in the new folder is added to the same sequence of the table that becomes the new
+    mailbox's `sequences` (and is written to its `.mh_sequences`).  A message that arrives flagged \\Seen / \\Answered /
+    \\Deleted in INBOX and unflagged under the new name has not been moved intact."""
+    from .common import pm_of
+
+    p = ctx.p
+    fi = p.func("mbox._helper_rename_inbox")
+    ctx.analysed(fi)
+    pm = pm_of(p, fi)
+    carry = [
+        "for seq in inbox.sequences.keys():\n    if key in inbox.sequences[seq]:\n        sequences[seq].add(new_msg_key)",
+        "for seq in inbox.sequences:\n    if key in inbox.sequences[seq]:\n        sequences[seq].add(new_msg_key)",
+        "for seq, keys in inbox.sequences.items():\n    if key in keys:\n        sequences[seq].add(new_msg_key)",
+    ]
+    if any(pm.has(x) for x in carry):
+        ctx.ok("R17.15", where(fi), "each moved message's new key joins every sequence its old key was in")
+    else:
+        ctx.bad("R17.15", fi.module, fi.qual, carry[0].replace("\n", " "), "RENAME INBOX no longer carries the flags of the moved messages over to their new keys: the messages arrive under the new name without \\Seen / \\Answered / \\Flagged / \\Deleted", fi.node.lineno)
+    stored = pm.has("new_mbox.sequences = sequences") and pm.has("new_mbox.set_sequences_in_folder(sequences)")
+    if stored:
+        ctx.ok("R17.15", where(fi), "the carried table becomes the new mailbox's sequences and is written to its folder")
+    else:
+        ctx.bad("R17.15", fi.module, fi.qual, "new_mbox.sequences = sequences; new_mbox.set_sequences_in_folder(sequences)", "the flag table built while moving the inbox's messages is not what the new mailbox keeps / writes to .mh_sequences", fi.node.lineno)
+
+
 def run(ctx):
     ctx.do(r17_8)
     ctx.do(r17_9)
@@ -660,6 +687,7 @@ def run(ctx):
     ctx.do(r17_12)
     ctx.do(r17_13)
     ctx.do(r17_14)
+    ctx.do(r17_15)
     from . import c08 as _c08
     ctx.do(_c08.r8_3)  # the inbox and what lies below it are recognised in every spelling
     from . import c12 as _c12
